@@ -86,6 +86,11 @@ def pack_stages(prop, tier, seed):
         return st
     if prop in ("C05", "C20", "C19"):
         st = [pack_stage("safety", "safetyq" if q else "safety", "none", prop, seed, timeout=3000)]
+        if prop == "C19":
+            st += [s2 for s2 in addr_stages("C07", tier, seed)]
+            for s2 in st[1:]:
+                s2["vh_args"] = ["-props", "C19"]
+            st.append(prep_stage("links", "links", "none", prop))
         if not q:
             st.append(pack_stage("rt", "rt", "none", prop, seed))
             st.append(pack_stage("ign1", "ignore", "single", prop, seed))
@@ -142,11 +147,12 @@ def builder_stages(prop, tier, seed):
     vers = builder_stage("versions", prop, seed, {"Vers": "{1, 2, 3}", "AllowedSets": "<- MCAllowed", "DepFlags": "{TRUE, FALSE}",
                                                   "Adds": "<- MCAddsV", "MaxEdges": "0", "MaxAdds": "3", "Pkgs": '{"P1"}',
                                                   "Subs": "<- MCSubs1"})
+    fan = builder_stage("fan", prop, seed, {"MaxEdges": "4", "MaxAdds": "1", "Adds": "<- MCAddsR", "RegPkgs": "{}"})
     coal = builder_stage("coalesce", prop, seed, {"Contents": "{1, 2}", "MetaFlags": "{TRUE, FALSE}", "MaxEdges": "1", "Adds": "<- MCAddsR"})
     if prop == "C14":
-        return [base] if q else [base, builder_stage("graph3", prop, seed, {"MaxEdges": "3", "Finders": '{"F1", "F2"}', "Adds": "<- MCAdds3", "Pkgs": '{"P1", "P2", "P3"}'}, sim={"num": 40000, "depth": 60}, workers=1)]
+        return [base, fan] if q else [base, fan, builder_stage("graph3", prop, seed, {"MaxEdges": "3", "Finders": '{"F1", "F2"}', "Adds": "<- MCAdds3", "Pkgs": '{"P1", "P2", "P3"}'}, sim={"num": 40000, "depth": 60}, workers=1)]
     if prop == "C08":
-        return [base, coal] if q else [base, coal, vers]
+        return [base, coal, fan] if q else [base, coal, fan, vers]
     if prop == "C17":
         return [vers]
     if prop == "C12":
